@@ -20,8 +20,98 @@ SPECS = [
     Spec(GROUP, "t4b_params", F, "Type4BTag.__init__", [], binds=[("target.sensb_res", "sensb_res", BYTES)] + _MAXSEND,
          stmts=[6, 7, 8, 9, 11], result=["fsc", "fwti"],
          note="cut: FSCI/FWI evaluation of SENSB_RES and the frame size clamp; result (fsc, fwti)"),
+    Spec(GROUP, "t4_cc_parse", F, "Type4Tag.NDEF._discover_ndef", [("capabilities", BYTES)],
+         binds=[("self.tag._extended_length_support", "ext", BOOL)], stmts=list(range(11, 34)), ret=ANY,
+         stores=["self._max_le", "self._max_lc", "self._capacity", "self._readable", "self._writeable",
+                 "self._nlen_size", "self._ndef_file"],
+         result=["self._max_le", "self._max_lc", "self._capacity", "self._readable", "self._writeable",
+                 "self._nlen_size", "self._ndef_file"],
+         note="cut: the capability container evaluation (statements behind the second `_read_binary`, up to the final "
+              "`return True`); `capabilities` is what `_read_binary(2, ..)` returned; result: `False` or the tuple "
+              "of the attributes it stores (max_le, max_lc, capacity, readable, writeable, nlen_size, ndef_file)"),
+    Spec(GROUP, "t4_read_binary_args", F, "Type4Tag.NDEF._read_binary", [("offset", INT), ("size", INT)],
+         binds=[("self._max_le", "max_le", INT)], stmts=(0, 2), result=["p1", "p2", "max_data"],
+         note="cut: the P1/P2 and Le arguments of the READ BINARY command handed to `send_apdu`"),
+    Spec(GROUP, "t4_update_binary_args", F, "Type4Tag.NDEF._update_binary", [("offset", INT), ("data", BYTES)],
+         binds=[("self._max_lc", "max_lc", INT)], stmts=(0, 2), result=["p1", "p2", "max_data"],
+         note="cut: the P1/P2 arguments and the chunk size of the UPDATE BINARY command"),
 ]
 P = "NfcVerif.FnBridge.T4."
 BRIDGE = {"module": "NfcVerif.Props.FnBridgeT4",
-          "theorems": [P + t for t in ("apdu_build_bridge", "apdu_status_bridge", "t4b_params_bridge")],
+          "theorems": [P + t for t in ("apdu_build_bridge", "apdu_status_bridge", "t4a_params_bridge", "t4b_params_bridge",
+                                       "discover_eq", "cc_parse_bridge", "read_binary_bridge")],
           "properties": ["C12", "C08", "C01"]}
+
+
+def inputs(rng, sp):
+    out = []
+    if sp.lean == "t4_apdu_build":
+        for _ in range(250):
+            hdr = [rng.choice([0, 0xA4, 0xB0, 0xD6, 255, rng.randrange(256)]) if rng.random() < 0.95 else rng.choice([-1, 256]) for _ in range(4)]
+            n = rng.choice([0, 0, 1, 2, 7, 254, 255, 256, 300, 65535, 65536]) if rng.random() < 0.8 else rng.randrange(0, 40)
+            data = bytes(rng.randrange(256) for _ in range(n))
+            mrl = rng.choice([0, 1, 2, 15, 255, 256, 257, 65535, 65536, 65537, -1])
+            out.append((hdr + [data, mrl], [bool(rng.randrange(2))]))
+    if sp.lean == "t4_apdu_status":
+        for _ in range(100):
+            body = bytes(rng.randrange(256) for _ in range(rng.randrange(0, 6)))
+            sw = rng.choice([b"\x90\x00", b"\x6a\x82", b"\x90", b"", bytes([rng.randrange(256), rng.randrange(256)])])
+            out.append(([body + sw, bool(rng.randrange(2))], []))
+    if sp.lean == "t4_cc_parse":
+        for _ in range(250):
+            tag = rng.choice([4, 4, 6, 6, 5, rng.randrange(256)])
+            val = bytes([0xE1, 4]) + (bytes(rng.randrange(256) for _ in range(2)) if tag == 4 else
+                                       bytes([0, rng.choice([0, 1]), rng.randrange(256), rng.randrange(256)])) + \
+                bytes([rng.choice([0, 0, 0xFF, rng.randrange(256)]), rng.choice([0, 0, 0xFF])])
+            plen = len(val) if rng.random() < 0.85 else rng.randrange(0, 12)
+            cc = bytes([rng.choice([0x10, 0x20, 0x30, 0x40, 0x00, rng.randrange(256)]), 0, rng.choice([15, 59, 255]), rng.randrange(2),
+                        rng.randrange(256), tag, plen]) + val
+            n = rng.choice([13, 14, 15, 15, 15, 16, 12, 3])
+            cc = (cc + bytes(4))[:n] if n <= len(cc) + 4 else cc
+            out.append(([cc], [bool(rng.randrange(2))]))
+    if sp.lean in ("t4_read_binary_args", "t4_update_binary_args"):
+        for _ in range(150):
+            off = rng.choice([0, 1, 255, 256, 65535, 65536, -1, rng.randrange(70000)])
+            if sp.lean == "t4_read_binary_args":
+                out.append(([off, rng.choice([-3, 0, 1, 15, 255, 256, 257, 70000])], [rng.choice([1, 15, 255, 256, 65535])]))
+            else:
+                out.append(([off, bytes(rng.randrange(256) for _ in range(rng.choice([0, 1, 20, 300])))], [rng.choice([1, 15, 255])]))
+    if sp.lean == "t4a_params":
+        for _ in range(200):
+            t0 = rng.randrange(256)
+            r = bytes([rng.randrange(1, 20), t0] + [rng.randrange(256) for _ in range(rng.randrange(0, 5))])
+            out.append(([r[:rng.randrange(0, len(r) + 1)] if rng.random() < 0.3 else r], [rng.choice([16, 64, 255, 256, 1024])]))
+    if sp.lean == "t4b_params":
+        for _ in range(200):
+            s = bytes([0x50] + [rng.randrange(256) for _ in range(rng.choice([8, 9, 10, 11, 12]))])
+            out.append(([], [s, rng.choice([16, 64, 255, 256, 1024])]))
+    return out
+
+
+MUTATIONS = [
+    ("t4_apdu_build", "short Lc limit", "if data and len(data) > 255:", "if data and len(data) > 256:"),
+    ("t4_apdu_build", "Le encoding of 256", "pack('>B', 0 if mrl == 256 else mrl)", "pack('>B', 0 if mrl == 255 else mrl)"),
+    ("t4_apdu_build", "extended Lc prefix", 'pack(">xH", len(data)) + bytes(data)', 'pack(">H", len(data)) + bytes(data)'),
+    ("t4_apdu_build", "extended Le without data", 'pack(">H", le) if data else pack(">xH", le)', 'pack(">H", le)'),
+    ("t4_apdu_build", "Le only when positive", "if mrl > 0:", "if mrl >= 0:"),
+    ("t4_apdu_status", "minimum response length", "len(apdu) < 2", "len(apdu) < 1"),
+    ("t4_apdu_status", "success status word", 'b"\\x90\\x00"', 'b"\\x90\\x01"'),
+    ("t4_apdu_status", "status kept in the data", "return apdu[:-2] if check_status else apdu", "return apdu[:-1] if check_status else apdu"),
+    ("t4a_params", "TB(1) position", "tb_index = 3 if rats_res[1] & 0x10 else 2", "tb_index = 3 if rats_res[1] & 0x20 else 2"),
+    ("t4a_params", "FWI nibble", "fwti = rats_res[tb_index] >> 4", "fwti = rats_res[tb_index] & 15"),
+    ("t4a_params", "FSCI clamp", "if fsci > 8:", "if fsci > 9:"),
+    ("t4a_params", "FSC table", "(16, 24, 32, 40, 48, 64, 96, 128, 256)[fsci]", "(16, 24, 32, 40, 48, 64, 96, 128, 255)[fsci]"),
+    ("t4b_params", "FWI byte", "target.sensb_res[11] >> 4", "target.sensb_res[10] >> 4"),
+    ("t4b_params", "RFU FWI default", "fwti = 4", "fwti = 5"),
+    ("t4_cc_parse", "minimum capability length", "len(capabilities) < 13", "len(capabilities) < 12"),
+    ("t4_cc_parse", "accepted mapping versions", "ver >> 4 not in (1, 2, 3)", "ver >> 4 not in (1, 2, 3, 4)"),
+    ("t4_cc_parse", "control TLV length for tag 6", "((4, 6), (6, 8))", "((4, 6), (6, 7))"),
+    ("t4_cc_parse", "extended TLV field width", '">2sIBB"', '">2sHBB"'),
+    ("t4_cc_parse", "short APDU Lc limit", "min(mlc, 255)", "min(mlc, 256)"),
+    ("t4_cc_parse", "capacity accounts for the NLEN field", "min(mfs, 0x10000) - tag + 2", "min(mfs, 0x10000) - tag + 4"),
+    ("t4_cc_parse", "16 bit offset clamp dropped", "min(mfs, 0x10000)", "mfs"),
+    ("t4_cc_parse", "write flag read from the read flag", "bool(wf == 0)", "bool(rf == 0)"),
+    ("t4_read_binary_args", "offset byte order", 'pack(">H", offset)', 'pack("<H", offset)'),
+    ("t4_read_binary_args", "Le not limited by MLe", "min(self._max_le, size)", "size"),
+    ("t4b_params", "frame size clamp dropped", "if fsc > self.clf.max_send_data_size:", "if fsc > 99999:"),
+]
